@@ -32,7 +32,7 @@ NoSilent == \A p \in Peers : ~SilentEnabled(p)
 
 Start == /\ t <= Len(Execs) /\ l = 0
          /\ script' = Scr(X) /\ pc' = [p \in Peers |-> "recv"] /\ idx' = [p \in Peers |-> 0]
-         /\ queue' = <<>> /\ sent' = [p \in Peers |-> <<>>] /\ vdata' = [p \in Peers |-> 0]
+         /\ queue' = <<>> /\ sent' = [p \in Peers |-> Hello] /\ vdata' = [p \in Peers |-> 0]
          /\ l' = 1 /\ verdict' = "" /\ t' = t
 
 (* which NodeQueue action explains event e (as a string), or "none" *)
